@@ -38,6 +38,13 @@ def repo_state():
         return {"error": repr(e)}
 
 
+def _jb(o):
+    """bytes in job parameters travel as {"__bytes__": latin-1 text} (vf.replay turns them back)"""
+    if isinstance(o, (bytes, bytearray)):
+        return {"__bytes__": bytes(o).decode("latin1")}
+    return str(o)
+
+
 def run_replay(path, timeout=150):
     """replay a witness against the UNINSTRUMENTED modules in a clean process"""
     env = dict(os.environ)
@@ -166,7 +173,7 @@ def main(argv=None):
     per_group = {}
     for r in main_res:
         for v in r["violations"]:
-            blob = json.dumps({"job": r["job"], "witness": v["witness"]}, sort_keys=True)
+            blob = json.dumps({"job": r["job"], "witness": v["witness"]}, sort_keys=True, default=_jb)
             h = hashlib.sha1(blob.encode()).hexdigest()[:12]
             if h in seen:
                 continue
@@ -188,7 +195,7 @@ def main(argv=None):
         path = os.path.join(replay_dir, f"{h}.json")
         with open(path, "w") as f:
             json.dump({"property": pid, "job": r["job"], "witness": v["witness"], "tag": v["tag"],
-                       "info": v.get("info")}, f, indent=1)
+                       "info": v.get("info")}, f, indent=1, default=_jb)
         rr = run_replay(path)
         rr["path"] = path
         rr["tag"] = v["tag"]
